@@ -5,6 +5,7 @@ from .. import hirx as H
 from ..flow import ExprBuilder, mentions_call, mentions_field, is_call, walk, show, cond_switches, guarded, \
     seed_after_call, Sccp, I, V, X, value_set
 from ..graph import classify_result, CallGraph
+from .. import wire as W
 from ..facts import op_const, op_place
 
 TITLE = "exit status / error reporting"
@@ -204,6 +205,49 @@ def matched_rule(ctx, r):
                               % (esc[0], clo.blocks[esc[0]]["term"].get("loc")), fn=clo, loc=c.loc, construct="matched")
                     else:
                         r.ok("search_parallel|store-all-paths", "has_match() ⇒ matched.store(true) on every path to return", fn=clo)
+    # the flag exists, starts false, is set to true (and only to true) by a worker, and the early quit is `matched ∧ quit_after_match`
+    sp = facts.fn("rg::search_parallel")
+    ebs = ExprBuilder(sp)
+    news = [c for c in sp.calls() if c.path.endswith("Atomic::new")]
+    named = {}
+    for l_i, l_ in enumerate(sp.locals):
+        if l_.get("name") in ("matched", "searched", "broken_pipe"):
+            e_ = ebs.local(l_i)
+            named[l_["name"]] = [W.const_val(c_[3][0]) for c_ in walk(e_) if c_.k == "call" and c_[1].endswith("Atomic::new") and c_[3]]
+    if named.get("matched") == [0]:
+        r.ok("search_parallel|init", "matched starts as false", fn=sp)
+    else:
+        r.bad("search_parallel|init", "the shared `matched` flag of search_parallel does not start as false (%s): a run without any "
+              "match would exit with 0" % named.get("matched"), fn=sp, construct="matched")
+    mstores = []
+    for clo in facts.closures_of("rg::search_parallel"):
+        ebc = ExprBuilder(clo)
+        for c in clo.calls():
+            if c.path.endswith("Atomic::store") and any(y.k == "field" and y[3] == "matched" for y in walk(ebc.operand(c.args[0]))):
+                mstores.append((clo, c, W.const_val(ebc.operand(c.args[1]))))
+    if mstores and all(v_ == 1 for _, _, v_ in mstores):
+        r.ok("search_parallel|store-true", "a worker stores true (and nothing else) into matched", fn=mstores[0][0])
+    else:
+        r.bad("search_parallel|store-true", "no worker of search_parallel stores `true` into the shared matched flag (%s): matches found "
+              "by the parallel search would not be reflected in the exit status" % [v_ for _, _, v_ in mstores], fn=sp, construct="matched")
+    for clo in facts.closures_of("rg::search_parallel"):
+        if not clo.calls_to(SEARCH):
+            continue
+        tails = [x for x in H.find(clo.hir, lambda x: x.get("k") == "if") if "quit_after_match" in H.canon(x["c"])]
+        if not tails:
+            r.bad("search_parallel|quit", "anchor-missing: the early-quit test of the parallel worker", fn=clo)
+            continue
+        c_ = tails[-1]["c"]
+        atoms_ = sorted(H.atoms(c_))
+        if len(atoms_) == 2:
+            ok_, detail = H.equivalent(c_, atoms_, lambda v: all(v.values()))
+        else:
+            ok_, detail = False, "depends on %s" % atoms_
+        if ok_ and any("matched" in a for a in atoms_):
+            r.ok("search_parallel|quit", "Quit ⇔ matched.load() ∧ quit_after_match()", fn=clo)
+        else:
+            r.bad("search_parallel|quit", "the parallel worker asks the walk to quit under another condition than "
+                  "matched ∧ quit_after_match (%s): files would be left unsearched" % detail, fn=clo, construct="quit_after_match")
     # every successfully searched file is asked whether it matched before the worker returns (on any path,
     # including the broken-pipe Quit): otherwise a match whose output hit a closed pipe is forgotten
     for clo in facts.closures_of("rg::search_parallel"):
@@ -583,7 +627,7 @@ def run(ctx):
     with ctx.rule("C15.STATUS", "exit-code truth table of rg::run (8 rows, exhaustive) and rg::main's Err mapping",
                   floor=10, exhaustive=True, kind="TRUTH") as r:
         status_rule(ctx, r)
-    with ctx.rule("C15.MATCHED", "`matched` derives from the mode functions / has_match()", floor=8, kind="FLOW") as r:
+    with ctx.rule("C15.MATCHED", "`matched` derives from the mode functions / has_match(); the shared flag's life cycle in search_parallel", floor=13, kind="FLOW") as r:
         matched_rule(ctx, r)
     with ctx.rule("C15.PIPE", "every handled stdout-write error tests BrokenPipe first and stops quietly", floor=8, kind="GUARD") as r:
         pipe_rule(ctx, r)
